@@ -257,6 +257,9 @@ func (vm *Vm) runDeadCheck(ctx context.Context, b []byte) ([]byte, error) {
 // executes the MAP opcode
 func (vm *Vm) runMap(ctx context.Context, b []byte) ([]byte, error) {
 	sym, b, err := ParseMap(b)
+	if err != nil {
+		return b, err
+	}
 	err = vm.pg.Map(sym)
 	return b, err
 }
